@@ -233,8 +233,13 @@ func runCrypto(args []string) error {
 			if redis {
 				s.gredis.syncTime()
 				bv, _ := s.mr.Get(s.sessionKey("sid-2"))
+				av, _ := s.mr.Get(s.sessionKey("sid-1"))
 				s.mr.Set(s.sessionKey("sid-1"), bv)
 				s.mr.SetTTL(s.sessionKey("sid-1"), time.Hour)
+				restoreA := func() {
+					s.mr.Set(s.sessionKey("sid-1"), av)
+					s.mr.SetTTL(s.sessionKey("sid-1"), time.Hour)
+				}
 				for _, kind := range []string{"p", "i"} {
 					tid++
 					th := s.spawn(tid, reqSpec{kind: kind, cookie: A.cookie})
@@ -246,6 +251,7 @@ func runCrypto(args []string) error {
 					wobs.Write(ob)
 					wobs.WriteByte('\n')
 				}
+				restoreA()
 			}
 			// truncated / damaged store values under B's key, presented with B's genuine cookie (Redis only)
 			if redis {
@@ -273,6 +279,43 @@ func runCrypto(args []string) error {
 							s.runOne(tid, 0)
 						}
 						ob, _ := json.Marshal(map[string]any{"kind": "swap", "redis": redis, "variant": fmt.Sprintf("store-value-prefix-%d", l), "class": "invalid", "endpoint": kind,
+							"outcome": s.outcomeCode(th), "panic": th.panicv != nil})
+						wobs.Write(ob)
+						wobs.WriteByte('\n')
+					}
+				}
+				s.mr.Set(bk, orig)
+				s.mr.SetTTL(bk, ttl)
+			}
+			// the stored value is damaged BETWEEN the two reads of one request (the read on arrival and the re-read under the
+			// refresh lock): whatever the second read finds must still be classified as an invalid session
+			if redis {
+				time.Sleep(320 * time.Second) // B's token (lifetime 600 s) is now due for refresh and still valid
+				s.gredis.syncTime()
+				bk := s.sessionKey("sid-2")
+				orig, _ := s.mr.Get(bk)
+				ttl := s.mr.TTL(bk)
+				other, _ := s.mr.Get(s.sessionKey("sid-1"))
+				flipped := []byte(orig)
+				flipped[len(flipped)/2] ^= 0x10
+				junk := make([]byte, len(orig))
+				rng.Read(junk)
+				names := []string{"flip", "half", "short-13", "empty", "other-session-blob", "own-cookie-text", "junk"}
+				vals := map[string]string{"flip": string(flipped), "half": orig[:len(orig)/2], "short-13": orig[:13], "empty": "", "other-session-blob": other,
+					"own-cookie-text": B.cookie, "junk": string(junk)}
+				for _, name := range names {
+					for _, kind := range []string{"p", "r", "f"} {
+						s.mr.Set(bk, orig)
+						s.mr.SetTTL(bk, ttl)
+						tid++
+						th := s.spawn(tid, reqSpec{kind: kind, cookie: B.cookie})
+						s.runOne(tid, 0) // the first read sees the genuine value
+						s.mr.Set(bk, vals[name])
+						s.mr.SetTTL(bk, ttl)
+						for i := 0; i < 50 && !th.done; i++ {
+							s.runOne(tid, 0)
+						}
+						ob, _ := json.Marshal(map[string]any{"kind": "swap", "redis": redis, "variant": "store-damaged-between-reads-" + name, "class": "invalid", "endpoint": kind,
 							"outcome": s.outcomeCode(th), "panic": th.panicv != nil})
 						wobs.Write(ob)
 						wobs.WriteByte('\n')
